@@ -804,7 +804,7 @@ func run(c *core.Ctx) {
 	seeds := loadSeeds()
 	quick := c.Quick()
 	c.Rule("seed grammars x {0, 1 (thorough: 2 for seeds < 60 tokens)} token deviations (delete, duplicate, swap-with-next, replace by one of " +
-		strconv.Itoa(len(replacements)) + " tm tokens; no-op edits skipped; quick: seeds > " + strconv.Itoa(quickBigSeed) + " tokens use 8 replacement tokens) + all byte strings <= 3 over 18 bytes in 5 contexts; " +
+		strconv.Itoa(len(replacements)) + " tm tokens; no-op edits skipped; quick: seeds > " + strconv.Itoa(quickBigSeed) + " tokens use only the replacement tokens ; ( a) + all byte strings <= 3 over 18 bytes in 5 contexts; " +
 		"every case through compiler.Compile (CheckOnly off; also on when the text mentions optimizeTables). " +
 		"Non-trivial = the text passes the tm parser, i.e. reaches the semantic phases; distinct by FNV-64 of the text")
 	c.Assume("log.Fatal* is observed by a log output hook that panics with the caller's identity (the process would exit right after writing the message); everything else that kills or stalls a worker is detected by the shard protocol (45 s without progress on a single case = hang)")
